@@ -6,12 +6,14 @@
 (* Pair(P,Q) multiplies coefficients; ValidatePairing compares two forms.   *)
 (* A behaviour has the phase structure                                      *)
 (*   init pool ; [pre-op on a G1 register] ; [pre-op on a G2 register] ;     *)
-(*   t1 := e(x,y) ; t2 := e(x',y') | s*t1 | t1+t1 | -t1 ; validate(x,y,x',y') *)
+(*   t1 := e(x,y) ; [in-place op on t1] ; t2 := e(x',y') | s*t1 | t1+t1 | -t1 ;   *)
+(*   validate(x,y,x',y')                                                    *)
 (* so that pairings see operands left in non-normalised internal form by     *)
 (* earlier arithmetic.                                                       *)
 EXTENDS Laurent, TLC, Json
 
 CONSTANTS PreOps,  \* TRUE: phases 1,2 are arithmetic pre-ops; FALSE: they are skipped
+          InPlaceOps, \* TRUE: phase 4 may overwrite the first pairing result in place
           CMax, DMax
 
 VARIABLES s, a, b, t, hist
@@ -85,14 +87,28 @@ Second ==
   \/ TStep("t.add", "t2", "t1", "t1", TAdd(t["t1"], t["t1"]))
   \/ TStep("t.neg", "t2", "t1", "", TNeg(t["t1"]))
 
+\* phase 5: the first pairing result is used as an in-place accumulator (or left alone)
+InPlace ==
+  \/ TStep("t.skip", "t1", "", "", t["t1"])
+  \/ TStep("t.add", "t1", "t1", "t2", TAdd(t["t1"], t["t2"]))
+  \/ TStep("t.add", "t1", "t1", "t1", TAdd(t["t1"], t["t1"]))
+  \/ TStep("t.neg", "t1", "t1", "", TNeg(t["t1"]))
+  \/ \E k \in SReg : TMulOK(s[k], t["t1"]) /\ TStep("t.mul", "t1", k, "t1", TMul(s[k], t["t1"]))
+
+\* phase 6: a further pairing after the accumulation (results of earlier pairings must not be shared state)
+Third ==
+  \/ TStep("t.skip", "t2", "", "", t["t2"])
+  \/ \E x \in AReg, y \in BReg : PairOK(a[x], b[y]) /\ TStep("pair", "t2", x, y, Pair(a[x], b[y]))
+
 \* final observation: ValidatePairing on the operands of the two pairings (if
-\* the second step was a pairing) and equality of the two GT registers
+\* phase 4 was a pairing and phases 5, 6 were skipped) and equality of the two GT registers
 Observe ==
-  LET h3 == hist[4]  h4 == hist[5] IN
+  LET h3 == hist[4]  h4 == hist[5]
+      plain == hist[6].op = "t.skip" /\ hist[7].op = "t.skip" /\ h4.op = "pair" IN
   /\ UNCHANGED <<s, a, b, t>>
   /\ hist' = Append(hist,
         [op |-> "observe", d |-> "", x |-> h3.x, y |-> h3.y,
-         x2 |-> IF h4.op = "pair" THEN h4.x ELSE "", y2 |-> IF h4.op = "pair" THEN h4.y ELSE "",
+         x2 |-> IF plain THEN h4.x ELSE "", y2 |-> IF plain THEN h4.y ELSE "",
          v |-> [eq |-> (t["t1"] = t["t2"]), t1zero |-> (t["t1"] = TZero)]])
 
 Next ==
@@ -100,7 +116,9 @@ Next ==
     [] Len(hist) = 2 -> IF PreOps THEN PreB ELSE BStep("b.skip", "b2", "", "", b["b2"])
     [] Len(hist) = 3 -> Pair1
     [] Len(hist) = 4 -> Second
-    [] Len(hist) = 5 -> Observe
+    [] Len(hist) = 5 -> IF InPlaceOps THEN InPlace ELSE TStep("t.skip", "t1", "", "", t["t1"])
+    [] Len(hist) = 6 -> IF InPlaceOps THEN Third ELSE TStep("t.skip", "t2", "", "", t["t2"])
+    [] Len(hist) = 7 -> Observe
     [] OTHER -> FALSE
 
 Spec == Init /\ [][Next]_vars
@@ -125,5 +143,5 @@ PairLaws ==
     /\ Pair(PBase, PBase) # TZero
 
 View == <<s, a, b, t, Len(hist)>>
-Emit == (Len(hist) = 6) => PrintT(<<"TRACE", ToJson(hist)>>)
+Emit == (Len(hist) = 8) => PrintT(<<"TRACE", ToJson(hist)>>)
 =============================================================================
